@@ -128,7 +128,24 @@ func sortedKeys(m map[string]string) []string {
 // ---------- Equals ----------
 
 var mutationNames = []string{"same", "uuid", "payload-flip", "payload-append", "payload-truncate", "payload-nil-empty",
-	"meta-value", "meta-add", "meta-remove", "meta-rename", "meta-rename-emptyvalue", "independent"}
+	"meta-value", "meta-add", "meta-remove", "meta-rename", "meta-rename-emptyvalue", "independent", "uuid-case", "meta-key-case", "meta-value-case"}
+
+// otherCase returns s in another letter case (incl. the Unicode simple-folding partners that are not upper/lower of each other).
+func otherCase(t *rapid.T, s string) string {
+	switch rapid.IntRange(0, 2).Draw(t, "caseChange") {
+	case 0:
+		if u := strings.ToUpper(s); u != s {
+			return u
+		}
+		return strings.ToLower(s)
+	case 1:
+		if l := strings.ToLower(s); l != s {
+			return l
+		}
+		return strings.ToUpper(s)
+	}
+	return strings.NewReplacer("k", "\u212a", "K", "\u212a", "s", "\u017f", "S", "\u017f", "\u00e5", "\u212b").Replace(s)
+}
 
 func mutate(t *rapid.T, s lib.Snap, kind string) (lib.Snap, bool) {
 	o := lib.Snap{UUID: s.UUID, Payload: append([]byte(nil), s.Payload...), Meta: map[string]string{}}
@@ -141,6 +158,30 @@ func mutate(t *rapid.T, s lib.Snap, kind string) (lib.Snap, bool) {
 		return o, true
 	case "uuid":
 		o.UUID = s.UUID + rapid.StringN(1, 3, -1).Draw(t, "uuidSuffix")
+	case "uuid-case":
+		// identifiers are compared as they are: "...b3af" and "...B3AF" are two UUIDs
+		if o.UUID = otherCase(t, s.UUID); o.UUID == s.UUID {
+			return o, false
+		}
+	case "meta-key-case":
+		if len(ks) == 0 {
+			return o, false
+		}
+		k := ks[rapid.IntRange(0, len(ks)-1).Draw(t, "ki")]
+		nk := otherCase(t, k)
+		if _, ok := o.Meta[nk]; ok || nk == k {
+			return o, false
+		}
+		o.Meta[nk] = o.Meta[k]
+		delete(o.Meta, k)
+	case "meta-value-case":
+		if len(ks) == 0 {
+			return o, false
+		}
+		k := ks[rapid.IntRange(0, len(ks)-1).Draw(t, "ki")]
+		if o.Meta[k] = otherCase(t, o.Meta[k]); o.Meta[k] == s.Meta[k] {
+			return o, false
+		}
 	case "payload-flip":
 		if len(o.Payload) == 0 {
 			return o, false
@@ -205,6 +246,18 @@ func TestEqualsAgreesWithReference(t *testing.T) {
 		if kind == "meta-rename-emptyvalue" {
 			// make sure an entry with the empty value exists
 			s.Meta[lib.GenKey().Draw(t, "emptyValuedKey")] = ""
+		}
+		if strings.HasSuffix(kind, "-case") {
+			// make sure there is something with letters in it
+			lettered := rapid.SampledFrom([]string{"6f9619ff-8b86-d011-b42d-00c04fc964ff", "01HZX5K3M", "k", "\u00e9t\u00e9", "Stra\u00dfe", "abc"}).Draw(t, "lettered")
+			switch kind {
+			case "uuid-case":
+				s.UUID = lettered
+			case "meta-key-case":
+				s.Meta[lettered] = "v"
+			default:
+				s.Meta["key"] = lettered
+			}
 		}
 		o, ok := mutate(t, s, kind)
 		if !ok {
